@@ -45,11 +45,47 @@ fn b(v: &Value) -> &'static str {
     if v.as_bool().unwrap_or(false) { "true" } else { "false" }
 }
 
-fn coq_components(v: &Value, tbl: &mut BTreeSet<u32>, n_comp: &mut usize) -> String {
+/// What the dumped trees exercise (measured): [components, zones, breaks, single-breakpoint
+/// breaks, empty-line breaks, comma-if-broken breaks, non-optional breaks, leading comments,
+/// trailing comments, open zones]
+pub type TreeStats = [usize; 10];
+
+fn coq_components(v: &Value, tbl: &mut BTreeSet<u32>, n_comp: &mut TreeStats) -> String {
     let mut parts = vec![];
     for c in v.as_array().unwrap() {
-        *n_comp += 1;
+        n_comp[0] += 1;
         let tag = c[0].as_str().unwrap();
+        match tag {
+            "Z" => {
+                n_comp[1] += 1;
+                if c[2]["is_open"].as_bool() == Some(true) {
+                    n_comp[9] += 1;
+                }
+            }
+            "B" => {
+                n_comp[2] += 1;
+                if c[6].as_bool() == Some(true) {
+                    n_comp[3] += 1;
+                }
+                if c[1].as_bool() == Some(true) {
+                    n_comp[4] += 1;
+                }
+                if c[7].as_bool() == Some(true) {
+                    n_comp[5] += 1;
+                }
+                if c[4].as_bool() == Some(false) {
+                    n_comp[6] += 1;
+                }
+            }
+            "C" => {
+                if c[2].as_bool() == Some(true) {
+                    n_comp[8] += 1;
+                } else {
+                    n_comp[7] += 1;
+                }
+            }
+            _ => {}
+        }
         parts.push(match tag {
             "T" => format!("T {}", coq_str(c[1].as_str().unwrap())),
             "Z" => {
@@ -273,7 +309,7 @@ pub fn write_cases(
         inputs.iter().zip(cfgs.iter()).map(|((_, t), c)| (format!("lb:{}", c.0), t.as_str())).collect();
     let outcomes = pool::run_all(&reqs, n_workers, Duration::from_secs(30));
     let mut lb_items: Vec<(String, BTreeSet<u32>)> = vec![];
-    let mut n_lb_components = 0usize;
+    let mut n_lb_components: TreeStats = [0; 10];
     let mut n_lb_multi = 0usize;
     let mut hook_mismatch = vec![];
     let mut lb_problems = vec![];
@@ -286,10 +322,12 @@ pub fn write_cases(
                 let tree: Value = serde_json::from_str(v["tree"].as_str().unwrap()).unwrap();
                 let built = v["built"].as_str().unwrap();
                 let mut tbl = BTreeSet::new();
-                let mut n = 0;
+                let mut n: TreeStats = [0; 10];
                 let ch = coq_components(&tree["children"], &mut tbl, &mut n);
                 let pend = coq_components(&tree["pending"], &mut tbl, &mut n);
-                n_lb_components += n;
+                for q in 0..10 {
+                    n_lb_components[q] += n[q];
+                }
                 if built.lines().count() > 3 {
                     n_lb_multi += 1;
                 }
@@ -327,7 +365,14 @@ pub fn write_cases(
     json!({
         "cw_cases": n_cw_written, "cw_distinct": distinct_cw.len(), "cw_output_differs": n_cw_changed,
         "cw_lines_added": n_cw_broken, "cw_panics": cw_panics,
-        "lb_cases": n_lb_written, "lb_inputs": inputs.len(), "lb_components": n_lb_components,
+        "lb_cases": n_lb_written, "lb_inputs": inputs.len(), "lb_components": n_lb_components[0],
+        "lb_tree_content": {
+            "protected_zones": n_lb_components[1], "break_points": n_lb_components[2],
+            "single_breakpoint_breaks": n_lb_components[3], "empty_line_breaks": n_lb_components[4],
+            "comma_if_broken_breaks": n_lb_components[5], "non_optional_breaks": n_lb_components[6],
+            "leading_comments": n_lb_components[7], "trailing_comments": n_lb_components[8],
+            "open_zones": n_lb_components[9],
+        },
         "lb_outputs_over_3_lines": n_lb_multi,
         "lb_hook_vs_get_formatted_file_mismatch": hook_mismatch, "lb_problems": lb_problems,
     })
